@@ -285,18 +285,23 @@ fn main() {
         }
         i += 2;
     }
-    let text = std::fs::read_to_string(&cases_path).expect("cases file");
-    let cases: Vec<Value> = text.lines().filter(|l| !l.trim().is_empty()).map(|l| serde_json::from_str(l).unwrap()).collect();
+    // Stream the case file (it can hold millions of cases): only the lines of this worker's range are parsed.
+    use std::io::BufRead as _;
+    let file = std::io::BufReader::new(std::fs::File::open(&cases_path).expect("cases file"));
+    let cases = file.lines().map_while(Result::ok).filter(|l| !l.trim().is_empty()).enumerate().skip(from).take_while(|(i, _)| *i < to);
     let mut out: Box<dyn std::io::Write> =
         if out_path.is_empty() { Box::new(std::io::stdout()) } else { Box::new(std::fs::File::create(&out_path).unwrap()) };
     std::panic::set_hook(Box::new(|_| {}));
     simk::install();
     events::install();
-    let to = to.min(cases.len());
     let mut bad = 0;
     let mut steps = 0;
+    let mut seen = 0usize;
     let mut world: Option<World> = None;
-    for (ci, case) in cases.iter().enumerate().take(to).skip(from) {
+    for (ci, line) in cases {
+        seen += 1;
+        let case: Value = serde_json::from_str(&line).unwrap();
+        let case = &case;
         if !progress_path.is_empty() && ci % 64 == 0 {
             let mut raw = Vec::new();
             raw.extend_from_slice(&(ci as u64).to_le_bytes());
@@ -333,5 +338,5 @@ fn main() {
         raw.extend_from_slice(&0u64.to_le_bytes());
         let _ = std::fs::write(&progress_path, raw);
     }
-    writeln!(out, "{}", json!({"summary": true, "paths": to.saturating_sub(from), "steps": steps, "diverged_paths": bad})).unwrap();
+    writeln!(out, "{}", json!({"summary": true, "paths": seen, "steps": steps, "diverged_paths": bad})).unwrap();
 }
